@@ -24,7 +24,7 @@ package conf
 //@   implements functype CoercerFunc
 //@   selffact cotype(self) == tid(bool)
 //@   pure
-//@   ensures[C03] from_bool: istype(data, bool) ==> result1 == nil && result0 == data
+//@   ensures[C03,C13] from_bool: istype(data, bool) ==> result1 == nil && result0 == data
 //@   ensures[C03] on_off: istype(data, string) && data.(string) == "on" ==> result1 == nil && result0 == box(true)
 //@   ensures[C03] on_off2: istype(data, string) && data.(string) == "off" ==> result1 == nil && result0 == box(false)
 //@   ensures[C03] other_strings: istype(data, string) && data.(string) != "on" && data.(string) != "off" ==> (result1 == nil) == parsebool_ok(data.(string)) && (result1 == nil ==> result0 == box(parsebool_val(data.(string))))
@@ -36,18 +36,19 @@ package conf
 //@   selffact cotype(self) == tid(string)
 //@   pure
 //@   ensures[C03] never_fails: result1 == nil
-//@   ensures[C03] strings_unchanged: istype(data, string) ==> result0 == data
+//@   ensures[C03,C13] strings_unchanged: istype(data, string) ==> result0 == data
 //@   ensures[C03] others_rendered_with_percent_v: !istype(data, string) ==> result0 == box(sprintv(data))
 
 //@ funcvar DefaultCoercers.Int(data)
 //@   implements functype CoercerFunc
 //@   selffact cotype(self) == tid(int)
 //@   pure
-//@   ensures[C03,C18] from_int: istype(data, int) ==> result1 == nil && result0 == data
+//@   ensures[C03,C13,C18] from_int: istype(data, int) ==> result1 == nil && result0 == data
 //@   ensures[C03,C18] from_int64: istype(data, int64) ==> result1 == nil && result0 == box(int(data.(int64))) && result0.(int) == data.(int64)
 //@   ensures[C03,C18] from_int32: istype(data, int32) ==> result1 == nil && result0.(int) == data.(int32)
 //@   ensures[C03,C18] from_string: istype(data, string) ==> (result1 == nil) == atoi_ok(data.(string)) && (result1 == nil ==> result0.(int) == atoi_val(data.(string)))
 //@   ensures[C18] from_float_same_number: istype(data, float64) && result1 == nil ==> finrange(data.(float64), int) && result0.(int) == ftrunc(data.(float64))
+//@   ensures[C03,C13] every_float_in_the_int_range_is_accepted: istype(data, float64) && finrange(data.(float64), int) ==> result1 == nil
 //@   ensures[C03] from_bool: istype(data, bool) ==> result1 == nil && result0.(int) == ite(data.(bool), 1, 0)
 //@   ensures[C03] unsupported: !istype(data, int) && !istype(data, int64) && !istype(data, int32) && !istype(data, string) && !istype(data, float64) && !istype(data, bool) ==> result1 != nil
 
@@ -55,9 +56,10 @@ package conf
 //@   implements functype CoercerFunc
 //@   selffact cotype(self) == tid(float64)
 //@   pure
-//@   ensures[C03] from_float64: istype(data, float64) ==> result1 == nil && result0 == data
+//@   ensures[C03,C13] from_float64: istype(data, float64) ==> result1 == nil && result0 == data
 //@   ensures[C03,C18] from_float32: istype(data, float32) ==> result1 == nil && result0 == box(float64(data.(float32)))
 //@   ensures[C18] from_int_same_number: istype(data, int) && result1 == nil ==> finrange(result0.(float64), int) && ftrunc(result0.(float64)) == data.(int)
+//@   ensures[C03,C13] every_int_is_accepted: istype(data, int) ==> result1 == nil
 //@   ensures[C03] from_string: istype(data, string) ==> (result1 == nil) == parsefloat_ok(data.(string)) && (result1 == nil ==> result0.(float64) == parsefloat_val(data.(string)))
 //@   ensures[C03] unsupported: !istype(data, int) && !istype(data, string) && !istype(data, float64) && !istype(data, float32) ==> result1 != nil
 
@@ -67,7 +69,7 @@ package conf
 //@   requires[C06] typed_value: data != nil
 //@   pure
 //@   ensures[C03] never_fails: result1 == nil
-//@   ensures[C03] slices_unchanged: rt_kind(rv_type(rv_of(data))) == 23 ==> result0 == data
+//@   ensures[C03,C13] slices_unchanged: rt_kind(rv_type(rv_of(data))) == 23 ==> result0 == data
 //@   ensures[C03] scalars_boxed: rt_kind(rv_type(rv_of(data))) != 23 ==> istype(result0, []any) && len(result0.([]any)) == 1 && result0.([]any)[0] == data
 
 //@ func TimeCoercerFactory$1(data)
@@ -75,7 +77,7 @@ package conf
 //@   captures format_set: format != nil
 //@   selffact cotype(self) == tid(time.Time)
 //@   pure
-//@   ensures[C03] from_time: istype(data, time.Time) ==> result1 == nil && result0 == data
+//@   ensures[C03,C13] from_time: istype(data, time.Time) ==> result1 == nil && result0 == data
 //@   ensures[C03] from_unix_int: istype(data, int) ==> result1 == nil && result0.(time.Time) == timeunix(data.(int), 0)
 //@   ensures[C03] from_unix_int64: istype(data, int64) ==> result1 == nil && result0.(time.Time) == timeunix(data.(int64), 0)
 //@   ensures[C03] unsupported: !istype(data, time.Time) && !istype(data, string) && !istype(data, int) && !istype(data, int64) ==> result1 != nil
